@@ -26,3 +26,4 @@ INVARIANT W_failedend
 INVARIANT W_restatstop
 INVARIANT W_oo_no_trigger
 INVARIANT W_depfile_trigger
+INVARIANT W_aliasskip
